@@ -101,6 +101,18 @@ def generate(seed, tier, k):
     if mode == "condensed" and r.random() < 0.3:
         doc["faults"].append({"kind": "solver_inexact", "rel": r.choice([1e-10, 1e-6, 1e-4]), "seed": r.randrange(1000)})
     doc["c10"] = {"mode": mode, "restart": mode == "condensed" and r.random() < 0.4, "probe_seed": r.randrange(1 << 30), "unrelated_dual": r.choice([None, None, False, True])}
+    if mode == "condensed" and fkind != "Axi" and gen.kpick(seed, "soft-units", 5) == 0:
+        # a very soft filler (or a unit system with large stress numbers elsewhere): moduli ten orders
+        # below one, pressures of 1e-9; felupe's convergence criterion carries the constant 1e-3, so the
+        # tolerance is set low enough to mean convergence at this force level
+        u_ = gen.apply_units(doc, 1.0, 1e-10)
+        if u_ is not None:
+            doc = u_
+            doc["newton"] = dict(doc.get("newton", {}), tol=1e-15, maxiter=40)
+            doc["faults"] = []
+            if gen.kpick(seed, "update-in-place", 3) == 0:
+                doc["update_kind"] = "inplace"
+            return doc
     if mode == "condensed" and gen.kpick(seed, "update-in-place", 3) == 0:
         # Newton's documented update= callable, here the in-place variant (x += dx): the field container
         # the body was created with carries every iterate
@@ -133,7 +145,53 @@ def conv_tol(doc, scale):
 
 
 # ----------------------------------------------------------------------------------------
+def static_force_twin(doc, log):
+    """Independent of any Newton run: at one deformed state the settled condensed body gives the nodal
+    forces of the explicit (u, p, J) formulation evaluated with the body's own cell pressures and volume
+    ratios (the u-block of the three-field residual)."""
+    dd = copy.deepcopy(doc)
+    dd["faults"] = []
+    wa = world.World(dd)
+    d2 = copy.deepcopy(dd)
+    it = d2["items"][0]
+    d2["items"][0] = {"type": "SolidBody", "umat": {"name": "NearlyIncompressible", "p": {"mu": it["umat"]["p"]["mu"], "bulk": it["bulk"]}}}
+    fk = doc["field"]["kind"]
+    d2["field"] = {"kind": "Mixed3"}
+    if fk == "PlaneStrain":
+        d2["field"]["planestrain"] = True
+    if fk == "Axi":
+        d2["field"]["axisymmetric"] = True
+    wb = world.World(d2)
+    rng = np.random.default_rng(doc["c10"]["probe_seed"] + 5)
+    pts = wa.mesh.points
+    span = float((pts.max(0) - pts.min(0)).max())
+    dim = pts.shape[1]
+    u = (pts - pts.min(0)) @ (0.15 * rng.uniform(-1, 1, (dim, dim))).T + 0.01 * span * rng.normal(size=pts.shape)
+    if fk == "Axi":
+        u[np.abs(pts[:, 1]) < 1e-12 * span, 1] = 0.0
+    body = wa.items[0]
+    wa.field[0].values[...] = u
+    for _ in range(3):
+        rc = body.assemble.vector(wa.field).toarray().ravel()
+    p_ = np.asarray(body.results.state.p)
+    J_ = np.asarray(body.results.state.J)
+    if wb.field[1].values.size != p_.size or not np.all(np.isfinite(rc)):
+        return
+    wb.field[0].values[...] = u
+    wb.field[1].values[...] = p_.reshape(-1, 1)
+    wb.field[2].values[...] = J_.reshape(-1, 1)
+    re = wb.items[0].assemble.vector(wb.field).toarray().ravel()[: u.size]
+    if not np.all(np.isfinite(re)):
+        return
+    sc = float(np.abs(re).max()) + 1e-300
+    d = float(np.abs(rc - re).max())
+    if d > 1e-9 * sc:
+        raise Violation(PROP, "condensed-vs-explicit", f"nodal forces of the settled condensed body differ from the u-block of the explicit (u, p, J) residual at the same displacements, cell pressures and volume ratios by {d:.3e} (scale {sc:.3e}, bulk {doc['items'][0]['bulk']})", site="SolidBodyNearlyIncompressible.vector-vs-explicit")
+    log.count("static-force-twin-compared")
+
+
 def run_condensed(doc, log):
+    static_force_twin(doc, log)
     w, eng, exc = run_history(doc, log)
     if exc is not None:
         if isinstance(exc, ValueError):
